@@ -59,6 +59,30 @@ let level_of_field s =
       (ustr_of_field (String.sub it 0 i), Leaf (clines_of_field (String.sub it (i + 1) (String.length it - i - 1)))))
     (String.split_on_char ',' s)
 
+(* scope ops *)
+let alist_of s = if s = "" then [] else
+  List.map (fun it -> match String.split_on_char '=' it with
+    | [k; v] -> (n_of_int (int_of_string k), n_of_int (int_of_string v)) | _ -> failwith "alist") (String.split_on_char ',' s)
+let optid s = if s = "-" then None else Some (nat_of_int (int_of_string s))
+let sop_of s =
+  let nn x = nat_of_int (int_of_string x) and kk x = n_of_int (int_of_string x) in
+  match String.split_on_char ':' s with
+  | ["new"; p; kw] -> ONew (optid p, alist_of kw)
+  | ["set"; i; k; v] -> OSet (nn i, kk k, kk v)
+  | ["get"; i; k] -> OGet (nn i, kk k)
+  | ["has"; i; k] -> OHas (nn i, kk k)
+  | ["getd"; i; k; v] -> OGetD (nn i, kk k, kk v)
+  | ["setdefault"; i; k; v] -> OSetDefault (nn i, kk k, kk v)
+  | ["update"; i; d; r] -> OUpdate (nn i, alist_of d, r = "1")
+  | ["inlocal"; i; k] -> OInLocal (nn i, kk k)
+  | ["del"; i; ks] -> ODel (nn i, if ks = "" then [] else List.map kk (String.split_on_char ',' ks))
+  | ["clone"; i] -> OClone (nn i)
+  | ["reparent"; i; p] -> OReparent (nn i, optid p)
+  | _ -> failwith ("bad sop " ^ s)
+let show_sout = function
+  | RNone -> "N" | RVal v -> "V" ^ string_of_int (int_of_n v) | RBool b -> if b then "B1" else "B0"
+  | RId n -> "I" ^ string_of_int (int_of_nat n) | RAttrErr -> "A" | RRecursion -> "R"
+
 let handle fields =
   match fields with
   | ["wc"; ll; ind; sp; ct; line] ->
@@ -73,6 +97,14 @@ let handle fields =
       show_result (fun (ls, b) -> (if b then "T" else "F") ^ "|" ^ string_of_int (List.length ls) ^ ":" ^ lines_out ls)
         (create_splicer (show = "1") (ustr_of_field comment) (ustr_of_field path) (ustr_of_field name)
            (level_of_field level) (opt_clines dflt) (opt_clines force))
+  | ["scope"; ops] ->
+      let ops = if ops = "" then [] else List.map sop_of (String.split_on_char ';' ops) in
+      String.concat " " (List.map show_sout (srun [] ops))
+  | ["optval"; s] ->
+      (match cli_value (ustr_of_field s) with
+       | VBool b -> if b then "B1" else "B0"
+       | VInt z -> "I" ^ string_of_int (int_of_z z)
+       | VStr u -> "S" ^ field_of_ustr u)
   | ["lstrip"; s] -> field_of_ustr (lstrip (ustr_of_field s))
   | ["rstrip"; s] -> field_of_ustr (rstrip (ustr_of_field s))
   | _ -> "BADCMD"
